@@ -117,6 +117,13 @@ def cases(rng, tier):
 				# two elements of one list with the same value that differ in their parameters only (item;level=1, item;level=2)
 				els[-1] = (els[-1][0], els[0][1], els[-1][2])
 			yield ('list', tuple(els))
+	# many parameters on one element, long lists, long values (counts around the numbers a limit or a cache would have)
+	for cnt in (9, 17, 33, 65, 129):
+		ps = tuple(sorted((u'p%d' % i, value_text(rng)) for i in range(cnt)))
+		yield ('el', ('generic', u'v', ps))
+		yield ('list', tuple(('generic', u'e%d' % i, ((u'a', value_text(rng)),) if i % 3 else ()) for i in range(cnt)))
+	for ln in (78, 255, 256, 1000, 5000):
+		yield ('el', ('generic', u'v', ((u'a', u'x' * ln), (u'b', u'y;' * (ln // 2)), (u'c', u'\u00e9' * ln))))
 	for _ in range(n):
 		k = rng.choice((1, 3, 6, 10, 18))
 		yield ('wire', bytes(rng.choice(b'ab;;==""\\\\ ,*\'012%C3%A9utf-8\xe9') for _ in range(k)))
